@@ -31,7 +31,7 @@ BOUNDS = {'quick': 'L<=4 (d=4: L<=3), d in 2,3,4, 1..3 steps, |dt|*||H||<=2, rev
           'thorough': 'L<=5 (d=4: L<=4), d in 2,3,4, 1..3 steps, |dt|*||H||<=2, reverse: D<=6'}
 
 FAMILIES = [('ising', 2), ('heisenberg_xxz', 2), ('heisenberg_s1', 3), ('bose_hubbard', 2), ('bose_hubbard', 3),
-            ('fermi_hubbard', 4), ('rand0', 2), ('rand0', 3), ('randq', 2), ('randq', 3), ('randqz', 2), ('randqz', 3)]
+            ('fermi_hubbard', 4), ('rand0', 2), ('rand0', 3), ('randq', 2), ('randq', 3), ('randqz', 2), ('randqz', 3), ('prodh', 2), ('prodh', 3)]
 DTKINDS = ('real', 'negreal', 'imag', 'negimag', 'complex')
 
 
